@@ -20,6 +20,7 @@ void setDnsDelayMs(int ms);
 size_t acceptQueueLen(int fd);                  // connections waiting to be accepted on a listening descriptor
 size_t peerSpace(int fd);                       // bytes the peer's receive queue can still take (0 if the peer is gone)
 int  fileIdWatermark();                         // ids of files created from now on are >= this value
+uint64_t epollWaitCalls();                      // epoll_wait calls so far in this run (poll rounds)
 int  openFdCount();                             // number of simulated descriptors currently open
 
 } // namespace simnet
